@@ -102,6 +102,7 @@ func runCheck(id, repo, verif, tier string, noWrite bool, dump string) (code int
 			continue
 		}
 		r.Configs = append(r.Configs, fmt.Sprintf("%s (%d packages, %d module functions)", cfg.Name, len(p.Pkgs), len(p.Funcs)))
+		r.curConfig = cfg.Name
 		fn(ctx, p, r)
 	}
 	findings, err := loadFindings(filepath.Join(verif, "known_findings.json"))
